@@ -6,6 +6,9 @@ struct PathHead {
     node: Node,
     parent: Option<Node>,
     path_length: usize,
+    // Neighbour of the root through which this node was reached (None for the
+    // root itself).
+    branch: Option<Node>,
 }
 
 impl PathHead {
@@ -23,6 +26,7 @@ impl PathHead {
                 node: x,
                 parent: Some(self.node),
                 path_length: self.path_length + 1,
+                branch: self.branch.or(Some(x)),
             })
     }
 }
@@ -63,6 +67,7 @@ impl BFSContext<'_> {
             node,
             parent: None,
             path_length: 0,
+            branch: None,
         });
         let mut results = BFSResults {
             row_nodes_distance: vec![None; h.num_rows()],
@@ -90,21 +95,43 @@ impl BFSContext<'_> {
     }
 
     pub fn local_girth(mut self, max: usize) -> Option<usize> {
+        // Branch (neighbour of the root) through which each visited node was
+        // first reached. Two paths from the root that meet only form a cycle
+        // through the root if they leave the root through different branches.
+        let mut row_branch = vec![None; self.h.num_rows()];
+        let mut col_branch = vec![None; self.h.num_cols()];
+        let mut best: Option<usize> = None;
         while let Some(head) = self.to_visit.pop_front() {
+            if let Some(b) = best {
+                // Cycles found from this head on have length at least
+                // 2 * head.path_length.
+                if 2 * head.path_length >= b {
+                    break;
+                }
+            }
             for next_head in head.iter(self.h) {
+                let next_branch = match next_head.node {
+                    Node::Row(n) => &mut row_branch[n],
+                    Node::Col(n) => &mut col_branch[n],
+                };
                 let next_dist = self.results.get_node_mut(next_head.node);
                 if let Some(dist) = *next_dist {
-                    let total = dist + next_head.path_length;
-                    return if total <= max { Some(total) } else { None };
+                    if *next_branch != next_head.branch {
+                        let total = dist + next_head.path_length;
+                        if best.is_none_or(|b| total < b) {
+                            best = Some(total);
+                        }
+                    }
                 } else {
                     *next_dist = Some(next_head.path_length);
+                    *next_branch = next_head.branch;
                     if next_head.path_length < max {
                         self.to_visit.push_back(next_head);
                     }
                 }
             }
         }
-        None
+        best.filter(|&b| b <= max)
     }
 }
 
